@@ -46,7 +46,7 @@ EXTRA = {
  "C07": " A further batch on multi-part operands with partial collinear overlaps (the result must not depend on the order of the parts).",
  "C08": " Families whose treatment depends on the sweep direction (a vertex of another part on a shared edge, boxes that merely touch, slivers hanging into the other box) are run under every symmetry.",
  "C13": " Enumerated families and the families tshare / hang / cxsplit are stage-recorded too; Layer M runs on generator inputs.",
- "C14": " The recorded finding N3 (stale inherited prev_in_result) is accepted only where the TRANSCRIPTION of the pinned algorithm (Layer M, strictcls) produces a stale pointer itself: on the inputs of Layer M a stale pointer that the model does not have is a violation.",
+ "C14": " The strict reading of the last clause demands the NEAREST non-vertical result edge below; the recorded finding N3 (stale or no longer nearest inherited prev_in_result) is accepted only where the TRANSCRIPTION of the pinned algorithm (Layer M, strictcls) produces a stale pointer itself: on the inputs of Layer M a stale pointer that the model does not have is a violation.",
  "C15": " One stage run in five hands the zeros of an operand over as -0.0 (equal points with different bits).",
  "C09": " Float operands: one session in three carries a far part on A as a base operand of its own, judged at witness points. Family hang (a sliver reaching into, through or under a corner of the other operand's box, its outer edges completely beyond the box) with far parts sized relative to the operands (a far part that moves the box in the other direction too). Crossing-comb scenarios with and without a far part are judged by the closed-form contract of TraceStack.tla; the far-part lemmas are proved in BoolOpsLaws.tla (TLAPS).",
  "C11": " Chained calls on float operands (families whose results contain no computed points) are judged at witness points against the Boolean expression over the base operands. Half of the chain sessions run on operands normalised by the library itself (A u A, B n B), so that fed-back results can coincide ring by ring with operands; the named identities are proved in BoolOpsLaws.tla (TLAPS).",
